@@ -240,7 +240,15 @@ def run_case(case, rec):
         rng = random.Random(f"{seed}:C08:{case['i']}")
         fmt = rng.choice(["pdb", "cif"])
         nulls = fmt == "cif" and rng.random() < 0.5
-        rows = gentab.random_table(rng, null_occ=nulls and rng.random() < 0.6, blank_chain=(fmt == "pdb" and rng.random() < 0.1), wide=(fmt == "pdb" or rng.random() < 0.5))
+        rows = gentab.random_table(rng, null_occ=nulls and rng.random() < 0.6, blank_chain=(fmt == "pdb" and rng.random() < 0.1), wide=(fmt == "pdb" or rng.random() < 0.5),
+                                   hetero=case["i"] % 3 == 1)
+        if fmt == "cif" and case["i"] % 5 == 2 and len({r["model"] for r in rows}) > 1:
+            # atom_site sorted by chain first and model second: the records of a model are not contiguous
+            order = []
+            for r in rows:
+                if r["chain"] not in order:
+                    order.append(r["chain"])
+            rows.sort(key=lambda r: order.index(r["chain"]))
         if fmt == "pdb":
             if not emit.fits_pdb(rows):
                 rec.skip("atoms.as-written", "generated table outside PDB limits")
